@@ -308,6 +308,12 @@ func genAdd(g *G) Step {
 	files := g.WorkFiles()
 	dirs := g.WorkDirs()
 	del := deletedTracked(g)
+	for _, p := range g.E.Cur.Tracked() {
+		// tracked paths whose parent directory was replaced by a regular file are gone too (stat answers ENOTDIR, not ENOENT)
+		if underFile(g.E.Cur, p) {
+			del = append(del, p)
+		}
+	}
 	for i := 0; i < n; i++ {
 		var cands [][]string
 		var ws []int
